@@ -350,6 +350,9 @@ def gen_repeated_ce(rng, spec, valid=True):
         elif v["k"] == "g" and v["array"]["shape"]:
             cands.append(("g", v, v["array"], [v["name"]]))
             cands.append(("gm", v, v["array"], [v["name"], v["array"]["name"]]))
+            # the whole grid with a hyperslab, then one of its members again (it is already there)
+            cands.append(("gw", v, v["array"], [v["name"]]))
+            cands.append(("gw", v, v["array"], [v["name"]]))
         elif v["k"] == "st":
             cands += [("m", v, m, [v["name"], m["name"]]) for m in v["members"] if m["k"] != "st" and m["shape"]]
     if not cands:
@@ -368,6 +371,15 @@ def gen_repeated_ce(rng, spec, valid=True):
         shown = [len(range(*s.indices(n))) for s, n in zip(src, shape)]
         nxt = gen_hs_any(rng, shown)
         hs.append(nxt if i == more - 1 else unit_strides(nxt))
+    if kind == "gw":
+        hs = hs[:1]
+        member = rng.choice([v["array"]] + v["maps"])["name"]
+        q = "%s%s,%s.%s" % (v["name"], hs_text(hs[0]), v["name"], member)
+        if rng.random() < 0.3:
+            q += ",%s.%s" % (v["name"], rng.choice([v["array"]] + v["maps"])["name"])
+        src = compose_windows(shape, hs)
+        return q, [("g", v["name"], [leaf(path + [b["name"]], b, src)] +
+                    [leaf(path + [m["name"]], m, (src[i],) if i < len(src) else None) for i, m in enumerate(v["maps"])])]
     if not valid:
         src = compose_windows(shape, hs[:-1])
         shown = [len(range(*s.indices(n))) for s, n in zip(src, shape)]
